@@ -134,6 +134,7 @@ class CacheWorld(object):
           return d + extra
         return d
       s.sleep_hook = hook
+    self.r.callLater(60.0, self.ref_reload_tick)
     self.r.thread_joiner = self.join_threads
     self.r.waker = lambda: s.wake('R')
     # schema versions in force at boot
@@ -141,6 +142,8 @@ class CacheWorld(object):
     self.schema_versions.append((0, files.get('storage-schemas.conf',
                                               "[default]\npattern = .*\nretentions = 60:1440\n")))
     self.agg_versions.append((0, files.get('storage-aggregation.conf')))
+    self.ref_schema_versions = [(0.0, self.schema_versions[0][1])]
+    self.ref_agg_versions = [(0.0, self.agg_versions[0][1])]
     if getattr(w, 'writer_mod', None) is not None:
       wm = w.writer_mod
       real_rs, real_ra = wm.reloadStorageSchemas, wm.reloadAggregationSchemas
@@ -158,6 +161,26 @@ class CacheWorld(object):
           svc.storage_reload_task.f = rs
           svc.aggregation_reload_task.f = ra
 
+  def ref_reload_tick(self):
+    """The documented behaviour: both schema files are re-read every 60 seconds.  The
+    reference keeps its own clock-driven view of the file versions in force, so that a
+    reload timer that has died inside the daemon is noticed."""
+    for name, versions in (('storage-schemas.conf', self.ref_schema_versions),
+                           ('storage-aggregation.conf', self.ref_agg_versions)):
+      p = os.path.join(os.environ['GRAPHITE_ROOT'], 'conf', name)
+      try:
+        text = open(p, encoding='utf-8').read()
+      except IOError:
+        text = None
+      if text is not None and not ref_parseable(text, name):
+        continue
+      if text is None and name == 'storage-schemas.conf':
+        continue
+      if text != versions[-1][1]:
+        versions.append((self.s.now, text))
+    if not self.stopping:
+      self.r.callLater(60.0, self.ref_reload_tick)
+
   def note_reload(self, name, versions):
     p = os.path.join(os.environ['GRAPHITE_ROOT'], 'conf', name)
     try:
@@ -165,6 +188,11 @@ class CacheWorld(object):
     except IOError:
       text = None
     self.ctx.log.add('reload', name)
+    if text is not None and not ref_parseable(text, name):
+      # the reference parser cannot read it either: a reload of such a file must leave
+      # the previous version in force
+      self.ctx.fault('unparseable_schema_file_at_reload')
+      return
     versions.append((self.ctx.log.n, text))
     self.ctx.probe('schema_reload')
 
@@ -897,11 +925,11 @@ class CacheWorld(object):
       idx, _t, _, metric, payload, outcome = rec
       # window in global event order: from the writer's previous backend call
       # (after which it re-reads the schema lists) to this create call
-      t = self.db_seq.get(idx, 0)
-      prev_t = self.db_seq.get(idx - 1, 0)
+      t = _t
+      prev_t = self.w.db.calls[idx - 1][1] if idx > 0 else 0.0
       allowed = []
-      for versions_s in self.versions_between(self.schema_versions, prev_t, t):
-        for versions_a in self.versions_between(self.agg_versions, prev_t, t):
+      for versions_s in self.versions_between(self.ref_schema_versions, prev_t, t):
+        for versions_a in self.versions_between(self.ref_agg_versions, prev_t, t):
           exp = ref_create_args(versions_s, versions_a, metric)
           if exp is not None:
             allowed.append(exp)
@@ -917,10 +945,12 @@ class CacheWorld(object):
   def versions_between(self, versions, t0, t1):
     """File contents in force at some time in [t0, t1] (last load <= t0 plus
     every load in (t0, t1])."""
+    # virtual time, both ends inclusive; a reload at exactly t0 may have run before or
+    # after the writer's previous backend call, so the version before it counts too
     last = versions[0][1]
     out = []
     for t, text in versions:
-      if t <= t0:
+      if t < t0:
         last = text
       elif t <= t1:
         out.append(text)
@@ -1022,6 +1052,23 @@ class CacheWorld(object):
 def sys_settrace_off():
   import sys
   sys.settrace(None)
+
+
+def ref_parseable(text, name):
+  """Can the documented file format be read at all (ini syntax, unique sections,
+  compilable patterns)?"""
+  import re
+  from configparser import ConfigParser
+  cp = ConfigParser(interpolation=None)
+  try:
+    cp.read_string(text)
+    for sec in cp.sections():
+      pat = dict(cp.items(sec)).get('pattern')
+      if pat:
+        re.compile(pat)
+  except Exception:
+    return False
+  return True
 
 
 def ref_create_args(schemas_text, agg_text, metric):
